@@ -24,7 +24,7 @@ Extraction "model.ml"
   Cache.initialize Cache.start_op Cache.run_thread Cache.run_op Cache.mstep Cache.infer_victims Cache.new_item Cache.item_path Cache.fs_unlink
   Cache.crc32 Cache.encode_file Cache.at_hook Cache.op_key Cache.key_dir Cache.item_name Cache.evict_ok
   Singleflight.sf_step Singleflight.sf_init Singleflight.sf_run
-  Reconstruct.trim_term Reconstruct.seq_write Reconstruct.par_write
+  Reconstruct.trim_term Reconstruct.get_one_term Reconstruct.seq_write Reconstruct.par_write
   Upload.urun Upload.u_init Upload.finalize_join Upload.session_result
   Crash.consolidate Crash.plan_effs Crash.apply_effs Crash.shard_name Crash.is_shard_final Crash.write_file
   DedupFacts.dedup_booked_before_decision DedupFacts.aggregated_xorb_registers_cas DedupFacts.metrics_snapshot_after_join
